@@ -117,7 +117,7 @@ func (g *DocGen) anyJSON(depth int) any {
 // extraKey draws an undeclared key disjoint from declared names.
 func (g *DocGen) extraKey(declared map[string]*specgen.Schema) string {
 	for i := 0; ; i++ {
-		k := rapid.SampledFrom([]string{"extra", "x-key", "zz_top", "Extra Key", "k\"q", "k\\b", "ключ", "0"}).Draw(g.T, g.label("extrakey"))
+		k := rapid.SampledFrom([]string{"extra", "x-key", "zz_top", "Extra Key", "k\"q", "k\\b", "ключ", "0", "esc\x1b[0m", "del\x7f", "bel\a", "tag\U000E0001"}).Draw(g.T, g.label("extrakey"))
 		if i > 0 {
 			k += strconv.Itoa(i)
 		}
